@@ -21,7 +21,8 @@ retyped / inserted token obeys the table, every pushed `ExpectSymbol(ty, ch)` ha
 return modes with that property); `ChanFns.lean` proves it for all ≈ 110 functions of the control logic — the
 computed types come with their own lemmas (keyword tables by `decide +kernel`, numeric parsers, mnemonics, literal
 endings) —; `ChanSound.lean` proves it sound against the primitives (`step_ChInv`, `ChanR_sound`).
-The same pass carries a second table, `payKindOK` (which kind of payload a type carries): `model_payload_kinds`.
+The same pass carries a second table, `payKindOK` (which kind of payload a type carries): `model_payload_kinds`,
+and a third fact: a `MacroSep` is emitted only under `cfg.macroSep` (`model_no_sep_without_feature`, used by C18).
 -/
 namespace SasLexer
 
@@ -41,7 +42,7 @@ example : Spec.C06 "x='a''b'd; %let q=%str(a%'b); y=&&v&i..z 0ffx $f5.2 /*c*/ *s
     (modelDump ⟨true, true, false⟩ "x='a''b'd; %let q=%str(a%'b); y=&&v&i..z 0ffx $f5.2 /*c*/ *s;".toList) = [] := by
   decide +kernel
 
-theorem new_ChInv (cfg : Cfg) (s : List Char) : ChInv (Lexer.new cfg s) := by
+theorem new_ChInv (cfg : Cfg) (s : List Char) : ChInv cfg.macroSep (Lexer.new cfg s) := by
   refine ⟨?_, ?_, ?_⟩
   · intro t ht; simp [Lexer.new, Lexer.bufAddLine] at ht
   · intro m hm
@@ -49,8 +50,8 @@ theorem new_ChInv (cfg : Cfg) (s : List Char) : ChInv (Lexer.new cfg s) := by
     subst hm; trivial
   · exact Or.inl (by simp [Lexer.new, Lexer.bufAddLine])
 
-theorem intoDetached_ChInv (cfg : Cfg) (L : Lexer) (h : ChInv L) :
-    ∀ t ∈ (L.intoDetached cfg).1.toks, tokInfoOK t = true := by
+theorem intoDetached_ChInv (cfg : Cfg) (L : Lexer) (h : ChInv cfg.macroSep L) :
+    ∀ t ∈ (L.intoDetached cfg).1.toks, tokInfoOK cfg.macroSep t = true := by
   unfold Lexer.intoDetached
   have e : (if L.linesR.isEmpty = true then (L.bufAddLine cfg 0 0).2 else L).toksR = L.toksR := by split <;> rfl
   generalize (if L.linesR.isEmpty = true then (L.bufAddLine cfg 0 0).2 else L) = L1 at e
@@ -71,7 +72,7 @@ theorem intoDetached_ChInv (cfg : Cfg) (L : Lexer) (h : ChInv L) :
       · exact h.toks t (by rw [← e]; first | exact ht | (rw [hl]; simpa using ht))
 
 /-- **C06, channel table, for the model: every input, both profiles, every ending.** -/
-theorem model_channels (cfg : Cfg) (s : List Char) : ∀ t ∈ (lexProgram cfg s).buf.toks, tokInfoOK t = true := by
+theorem model_channels (cfg : Cfg) (s : List Char) : ∀ t ∈ (lexProgram cfg s).buf.toks, tokInfoOK cfg.macroSep t = true := by
   unfold lexProgram
   simp only
   have h0 := new_ChInv cfg s
@@ -99,7 +100,7 @@ theorem model_channels (cfg : Cfg) (s : List Char) : ∀ t ∈ (lexProgram cfg s
       | none => exact intoDetached_ChInv cfg _ h2
 
 theorem C06_model_tables (cfg : Cfg) (s : List Char) :
-    ((modelDump cfg s).toks.all tokInfoOK) = true := by
+    ((modelDump cfg s).toks.all (tokInfoOK cfg.macroSep)) = true := by
   rw [List.all_eq_true]
   unfold modelDump
   split
@@ -119,7 +120,7 @@ theorem C06_model_channels (cfg : Cfg) (s : List Char) :
   intro t ht
   have := h t ht
   simp only [tokInfoOK, Bool.and_eq_true] at this
-  exact this.1
+  exact this.1.1
 
 /-- **payload-kind table for the model, every input** (C07 `only-string-types-carry-str-payload`, C08 "numeric tokens carry
 their number", C06 "macro-variable resolve tokens carry their level") -/
@@ -130,7 +131,18 @@ theorem model_payload_kinds (cfg : Cfg) (s : List Char) :
   intro t ht
   have := h t ht
   simp only [tokInfoOK, Bool.and_eq_true] at this
-  exact this.2
+  exact this.1.2
+
+/-- **no `MacroSep` without the `macro_sep` feature** (C18: the feature *only adds* separator tokens — a build without it
+has none), model, every input -/
+theorem model_no_sep_without_feature (cfg : Cfg) (s : List Char) (hf : cfg.macroSep = false) :
+    ∀ t ∈ (modelDump cfg s).toks, t.ty ≠ .MacroSep := by
+  have h := C06_model_tables cfg s
+  rw [List.all_eq_true] at h
+  intro t ht
+  have := h t ht
+  simp only [tokInfoOK, Bool.and_eq_true, hf, Bool.or_false] at this
+  simpa using this.2
 
 
 end SasLexer
